@@ -587,8 +587,15 @@ def c05_scripts(rng, tier):
             n["chunk"] = rng.choice([1, 2, 3, 7, 16, 33, 64, 100, 256])
             insts.append(n)
         ops = [with_id(n, i) for i, n in enumerate(insts)]
+        # nearest-point selection: where the positions are not exact in binary (step not dyadic), two chunkings
+        # may legitimately resolve a tie differently - one quantum of the sub-filter grid
+        tol = 0
+        if base.get("interp") == "Nearest":
+            d = (1 / Fraction(r)).denominator
+            if d & (d - 1):
+                tol = (1 << 20) // base["F"] + 1
         for i in range(1, len(insts)):
-            ops.append({"op": "note", "twin": "taus", "a": 0, "b": i})
+            ops.append({"op": "note", "twin": "taus", "a": 0, "b": i, "c": tol})
         want_out = 400
         for i, n in enumerate(insts):
             per_out = max(1.0, n["chunk"] * float(r)) if n["kind"].endswith("In") else n["chunk"]
